@@ -892,8 +892,12 @@ def _read_header_batch(
             "The server must write at least one non-log batch in the header stream.",
             "",
         ) from None
-    except RpcError:
-        _drain_stream(reader)
+    except Exception:
+        # An error batch from the server (RpcError) or anything raised by the
+        # caller's on_log callback: read on to EOS before propagating, so the
+        # rest of this stream is not mistaken for the next call's response.
+        with contextlib.suppress(Exception):
+            _drain_stream(reader)
         raise
     _drain_stream(reader)
     return resolve_external_location(batch, cm, external_config, on_log, ipc_validation)
@@ -1036,8 +1040,12 @@ def _read_unary_response(
     """Read a unary response: skip logs, extract result, deserialize."""
     try:
         batch = _read_batch_with_log_check(reader, on_log, external_config, shm=shm)
-    except RpcError:
-        _drain_stream(reader)
+    except Exception:
+        # An error batch from the server (RpcError) or anything raised by the
+        # caller's on_log callback: read on to EOS before propagating, so the
+        # rest of this response is not mistaken for the next call's.
+        with contextlib.suppress(Exception):
+            _drain_stream(reader)
         raise
     try:
         _drain_stream(reader)
